@@ -37,3 +37,6 @@ def flags(name):
 reg("serde", F("tlsh-default", "serde-suite"), flags=[15, 16, 18, 19, 21, 34])
 reg("serde-strict", F("tlsh-default", "serde-suite", "f-strict-parser"), flags=[1, 15, 16, 18, 19, 21, 34])
 reg("serde-buffered", F("tlsh-default", "serde-suite", "f-serde-buffered"), flags=[15, 16, 18, 19, 21, 34])
+
+# feature `unsafe`, release profile (no debug assertions / overflow checks): a false invariant!() is UB here
+reg("unsafe-release", F("tlsh-default", "f-unsafe"), profile="release", flags=[2, 3, 15, 16, 18, 19, 21, 34])
